@@ -1,6 +1,7 @@
 package main
 
 import (
+	"encoding/binary"
 	"errors"
 	"fmt"
 	"io"
@@ -47,6 +48,10 @@ type action struct {
 	scrub   bool // all-zero write / sync following only such writes: not counted
 	// a failed creation that left the empty, unallocated file behind
 	leftover bool
+	// commit: this state, compared with the state persisted before it and with the
+	// segment files as they were when CommitState was called, records a rotation
+	// (isRotation below)
+	rot bool
 }
 
 type pwrite struct {
@@ -423,11 +428,104 @@ func (m *cmeta) CommitState(ps types.PersistentState) error {
 	c.mu.Lock()
 	defer c.mu.Unlock()
 	cp := clonePS(ps)
-	if !c.record(&action{kind: actCommit, ps: &cp}) {
+	if !c.record(&action{kind: actCommit, ps: &cp, rot: c.isRotation(c.meta, &cp)}) {
 		return errInjected
 	}
 	c.meta = &cp
 	return nil
+}
+
+// ---- rotations of the persisted-metadata history (C20) ----------------------
+
+// committedEntries counts the entry frames of a segment file image that a commit
+// frame covers (file header, then frames up to the first zero frame type).
+func committedEntries(data []byte) uint64 {
+	var n, committed uint64
+	pad8 := func(l int) int { return (l + 7) &^ 7 }
+	for off := 32; off+8 <= len(data); {
+		l := int(binary.LittleEndian.Uint32(data[off+4 : off+8]))
+		switch data[off] {
+		case 1: // entry
+			n++
+			off += 8 + pad8(l)
+		case 2: // index
+			off += 8 + pad8(l)
+		case 3: // commit
+			committed = n
+			off += 8
+		default:
+			return committed
+		}
+	}
+	return committed
+}
+
+// fileLast: the last index the file of segment si holds right now (0 = no entry);
+// the Go twin of file_last in coq/Wal/MetricsSpec.v.  Caller holds c.mu.
+func (c *crashFS) fileLast(si types.SegmentInfo) uint64 {
+	f := c.files[fmt.Sprintf("%020d-%016x.wal", si.BaseIndex, si.ID)]
+	if f == nil {
+		return 0
+	}
+	n := committedEntries(f.data)
+	if n == 0 {
+		return 0
+	}
+	return si.BaseIndex + n - 1
+}
+
+func sameSegInfo(a, b types.SegmentInfo) bool {
+	return a.ID == b.ID && a.BaseIndex == b.BaseIndex && a.MinIndex == b.MinIndex && a.MaxIndex == b.MaxIndex &&
+		a.Codec == b.Codec && a.IndexStart == b.IndexStart && a.SizeLimit == b.SizeLimit &&
+		a.CreateTime.Equal(b.CreateTime) && a.SealTime.Equal(b.SealTime)
+}
+
+// isRotation is is_rotation of coq/Wal/MetricsSpec.v: committing `nw` over `old`
+// records a rotation iff every segment but the last stays as it was, the last one --
+// the unsealed tail t -- becomes a sealed segment of the same identity whose MaxIndex
+// is the last entry t's file holds (nothing is cut off), and ONE new, empty, unsealed
+// tail with the next segment id and BaseIndex = that MaxIndex + 1 is appended.  Head
+// truncations, the reset of an empty first segment and tail truncations that drop
+// whole segments never make the list longer; a tail truncation inside the tail seals
+// it below the last entry of its file.  Caller holds c.mu.
+func (c *crashFS) isRotation(old, nw *types.PersistentState) bool {
+	if old == nil || len(old.Segments) < 1 || len(nw.Segments) != len(old.Segments)+1 {
+		return false
+	}
+	k := len(old.Segments) - 1
+	for i := 0; i < k; i++ {
+		if !sameSegInfo(old.Segments[i], nw.Segments[i]) {
+			return false
+		}
+	}
+	t, t2, n := old.Segments[k], nw.Segments[k], nw.Segments[k+1]
+	return t2.MaxIndex == c.fileLast(t) &&
+		t.SealTime.IsZero() && !t2.SealTime.IsZero() &&
+		t2.ID == t.ID && t2.BaseIndex == t.BaseIndex && t2.MinIndex == t.MinIndex &&
+		t2.Codec == t.Codec && t2.SizeLimit == t.SizeLimit &&
+		t2.IndexStart > 0 && t2.MaxIndex > 0 &&
+		n.SealTime.IsZero() && n.BaseIndex == t2.MaxIndex+1 && n.MinIndex == n.BaseIndex && n.MaxIndex == 0 &&
+		n.ID == old.NextSegmentID && nw.NextSegmentID == old.NextSegmentID+1
+}
+
+// rotationsSince counts the successful commits recorded from action index `from` on
+// that are rotations.
+func (c *crashFS) rotationsSince(from int) uint64 {
+	c.mu.Lock()
+	defer c.mu.Unlock()
+	var n uint64
+	for i := from; i < len(c.acts); i++ {
+		if a := c.acts[i]; a.kind == actCommit && !a.failed && a.rot {
+			n++
+		}
+	}
+	return n
+}
+
+func (c *crashFS) nActions() int {
+	c.mu.Lock()
+	defer c.mu.Unlock()
+	return len(c.acts)
 }
 
 func (m *cmeta) GetStable(key []byte) ([]byte, error) {
